@@ -84,6 +84,14 @@ let do_classify b pres t =
   (match process_ret_type t with
    | None -> Buffer.add_string b "M"
    | Some l -> List.iter (fun m -> Buffer.add_string b (letter m)) l);
+  (* the accesses that move a value returned in registers: <mir type>@<byte offset>,... (ret_pieces); M = hidden pointer *)
+  Buffer.add_string b " racc=";
+  (match ret_pieces t with
+   | None -> Buffer.add_string b "M"
+   | Some l -> List.iteri (fun i (o, m) ->
+       Buffer.add_string b (Printf.sprintf "%s%s@%d" (if i > 0 then "," else "")
+         (match m with MI8 -> "i8" | MI16 -> "i16" | MI32 -> "i32" | MI64 -> "i64" | MF -> "f" | MD -> "d" | MLD -> "ld" | MX87UP -> "?")
+         (int_of_z o))) l);
   Buffer.add_string b " args=";
   let tl = TAgg (false, [(MNamed, TBasic KLong)]) and td = TAgg (false, [(MNamed, TBasic KDouble)]) in
   List.iteri (fun i (nl, nd) ->
